@@ -24,11 +24,16 @@ THEOREMS = {
     )],
     "C19": [NS + t for t in (
         "C19_balance", "C19_progress", "C19_progress_iff", "C19_progress_block_at_height", "C19_progress_errors",
-        "C19_progress_sent_partial", "C19_progress_sent_counterexample",
+        "C19_progress_sent",
     )],
 }
 
 MODE = {"C18": "c18", "C19": "c19"}
+
+# C18's known shape: the validator's listing lags its last block by design (C07), so an output spent by the last,
+# unconfirmed block is still offered.  Reported once per run; every other refusal keeps its own signature.
+INFLIGHT = "C18/listed-output-already-spent-by-last-block"
+LAGGING = "C19/progress-500-when-validator-has-no-block-at-clock-height"
 QUICK = {"workers": 8, "queries": 400}          # a few thousand compared queries, ~20 scenarios
 THOROUGH = {"C18": {"workers": 16, "queries": 6000},      # ~100k compared queries, ~600 scenarios
             "C19": {"workers": 16, "queries": 20000}}     # ~330k compared queries, ~450 followed histories
@@ -55,8 +60,8 @@ ASSUMPTIONS = {
         "ledger.Utxo.Value is a parameter (values at query time enter as data from the real function)",
         "the float64 division balance / units is trusted (compared bit-for-bit with Go's own division of the model's integer balance)",
         "'the block at the current height' is the first block of GetBlocks(h) for the height h the access node derives from "
-        "ITS OWN clock (C19_progress_block_at_height); when the validator has no block at that height the code answers 500 "
-        "(C19_progress_sent_counterexample, reproduced on the implementation on every run and reported as an observation)",
+        "ITS OWN clock (C19_progress_block_at_height); when the validator has no block at that height yet the block scan is "
+        "skipped and the pool decides (C19_progress_sent; the former 500 witness is a fixed regression scenario of every run)",
         "validator-side failures are: an error from the call, or bytes that do not decode; null entries inside well-formed "
         "validator answers are C14's subject",
         "int64 timestamps do not overflow; the validation interval is not 0",
@@ -151,12 +156,20 @@ def run(ctx):
     corr["scenarios"] = scenarios
     corr["workers"] = workers
     seen = {}
+    inflight = [f for f in harness_failures if f["signature"] == INFLIGHT]
     for f in harness_failures:                      # one violation per signature, first occurrence
-        seen.setdefault(f["signature"], f)
+        if f["signature"] != INFLIGHT:
+            seen.setdefault(f["signature"], f)
+    if inflight:                                    # one finding per run, with the total count; the fixed scenario's replay first
+        total = sum(int(f.get("count", 1)) for f in inflight)
+        first = next((f for f in inflight if (f.get("replay") or {}).get("regression")), inflight[0])
+        first = dict(first)
+        first["detail"] = first["detail"].split(" [")[0] + f" [{total} occurrence(s) in this run, {workers} workers]"
+        seen[INFLIGHT] = first
     for f in seen.values():
         failures.append(_to_failure(prop, f))
     diffs = [f for f in seen.values() if f.get("kind") == "diff"]
-    props = [f for f in seen.values() if f.get("kind") != "diff"]
+    props = [f for f in seen.values() if f.get("kind") != "diff" and f["signature"] != INFLIGHT]
     if harness_ok and corr["traces_validated_against_impl"] == 0:
         failures.append(vlib.failure("prop", f"{prop}/no-transaction-followed",
                                      "no wallet-built transaction could be followed into a block in this run "
@@ -166,21 +179,19 @@ def run(ctx):
                   "ok": harness_ok and not diffs})
     extra.append({"name": "property clauses evaluated directly on the implementation's answers and the validator's state",
                   "ok": harness_ok and not props})
+    reg = corr["hist"].get("regression", {})
     if prop == "C19":
-        obs = corr["hist"].get("observations", {})
-        reproduced = obs.get("progress_500_when_validator_has_no_block_at_clock_height/property_says_sent", 0) > 0
-        extra.append({"name": "witness of C19_progress_sent_counterexample reproduced on the implementation "
-                              "(500 while the transaction waits in the pool and the clock is one interval ahead)",
-                      "ok": reproduced})
-    notes = ""
-    if prop == "C18":
-        n = corr["hist"].get("observations", {}).get("inflight_spend_offered_again_and_refused", 0)
-        notes = ("observation (not counted): a wallet paying again before its previous payment is confirmed is offered the "
-                 f"outputs it has just spent and the validator silently refuses the second transaction ({n} reproductions this run); "
-                 "zero-valued amount and rest outputs are built and accepted")
+        extra.append({"name": "regression: the former 500 witness (genesis 1000, interval 60, two blocks, clock 1125, "
+                              "transaction in the pool) answers 'sent'",
+                      "ok": reg.get("c19-lagging-validator: 200 sent", 0) > 0 and LAGGING not in seen})
+        notes = ("observation (not counted): 'rejected' for an included transaction while the access node's clock is an "
+                 "interval behind (the block consulted is the one at the clock's height, as C19_progress states)")
     else:
-        notes = ("observations (not counted): 500 instead of a progress while the validator has no block at the height of the "
-                 "access node's clock; 'rejected' for an included transaction while the access node's clock is an interval behind")
+        extra.append({"name": "no output already spent by the validator's last block is offered "
+                              "(fixed regression scenario c18-spent-by-last-block + random second payments)",
+                      "ok": harness_ok and not inflight and any(k.startswith("c18-spent-by-last-block") for k in reg)})
+        notes = ("zero-valued amount and rest outputs are built and accepted (observation, not counted); "
+                 f"{INFLIGHT}: reproduced by the fixed scenario in every run while the validator's listing lags its last block")
     ctx.log(f"ruwallet: {corr['evaluations']} queries, {scenarios} scenarios, "
             f"{corr['traces_validated_against_impl']} transactions followed, {len(seen)} failing signatures")
     return vlib.result(lean=lean, corr=corr, failures=failures, extra_obligations=extra,
@@ -191,7 +202,7 @@ def replay(ctx, body):
     """Re-run the scenario named in the replay payload on the current tree; report failures with the same signature."""
     prop = body["property"]
     rp = body.get("replay") or {}
-    if body.get("kind") == "proof" or "scenario" not in rp:
+    if body.get("kind") == "proof" or ("scenario" not in rp and "regression" not in rp):
         lean = vlib.lean_check(PKG, THEOREMS[prop], thorough=False)
         fails = vlib.lean_failures(prop, lean)
         _build(ctx, fails)
@@ -203,8 +214,9 @@ def replay(ctx, body):
     binary = _build(ctx, fails)
     if binary is None:
         return fails
-    summary, err = _run_harness(binary, vlib.lean_exe(PKG, "walletdriver"), rp.get("mode", MODE[prop]), rp["seed"], 1,
-                                extra=["--only-scenario", str(rp["scenario"])])
+    scenario = -2 if rp.get("regression") else rp["scenario"]      # -2: the fixed regression scenarios only
+    summary, err = _run_harness(binary, vlib.lean_exe(PKG, "walletdriver"), rp.get("mode", MODE[prop]), rp.get("seed", 0), 1,
+                                extra=["--only-scenario", str(scenario)])
     if summary is None:
         return [vlib.failure("proof", f"{prop}/harness-run", err, rp, False)]
     same = [f for f in summary.get("failures", []) if f["signature"] == body["signature"]]
